@@ -63,6 +63,18 @@ impl oxidd_core::WorkerPool for Workers {
         op_a: impl FnOnce() -> RA + Send,
         op_b: impl FnOnce() -> RB + Send,
     ) -> (RA, RB) {
+        #[cfg(oxidd_verif)]
+        if oxidd_core::verif::controlled() {
+            // Run `op_b` on a thread controlled by the exploration harness
+            // instead of a pool worker. The set of behaviours (a ‖ b, then
+            // both results) is the same.
+            let (mut op_a, mut op_b) = (Some(op_a), Some(op_b));
+            let (mut ra, mut rb) = (None, None);
+            oxidd_core::verif::join(&mut || ra = Some((op_a.take().unwrap())()), &mut || {
+                rb = Some((op_b.take().unwrap())())
+            });
+            return (ra.unwrap(), rb.unwrap());
+        }
         self.pool.join(op_a, op_b)
     }
 
